@@ -124,6 +124,9 @@ func Edits(t *rapid.T, label string, o EditOpts) specs.ContainerEdits {
 	for i, n := 0, cnt("mount"); i < n; i++ {
 		l := fmt.Sprintf("%smount%d", label, i)
 		m := &specs.Mount{HostPath: "/host/" + o.nonEmptyStr(t, l+"Host"), ContainerPath: "/mnt/" + o.Marker + o.nonEmptyStr(t, l+"Ctr")}
+		if o.Marker == "" && rapid.IntRange(0, 3).Draw(t, l+"CommonDest") == 0 {
+			m.ContainerPath = rapid.SampledFrom([]string{"/data", "/m", "/", "/m/a", "rel"}).Draw(t, l+"CommonDestV")
+		}
 		for j, k := 0, rapid.IntRange(0, 3).Draw(t, l+"Opts"); j < k; j++ {
 			m.Options = append(m.Options, rapid.OneOf(rapid.SampledFrom([]string{"ro", "rw", "bind", "rbind", "nosuid", "nodev"}), rapid.Just(o.str(t, l+"OptS"))).Draw(t, fmt.Sprintf("%sOpt%d", l, j)))
 		}
